@@ -82,6 +82,10 @@ func TSkip(b []byte, off int, t byte, depth int) int {
 		if off+n > len(b) {
 			return -1
 		}
+		if t == TBOOL && b[off] > 1 {
+			// the binary protocol encodes bool as 0 or 1; no encoder produces another byte
+			return -1
+		}
 		return off + n
 	}
 	switch t {
